@@ -72,7 +72,7 @@ func (r *R) ResetLine(g *hx.Rng) string {
 	}
 	var fund []string
 	for _, o := range ownerPool {
-		fund = append(fund, fmt.Sprintf("%s/stake:%d", o, g.Range(0, 3)*g.Range(100, 100000)+g.Range(0, 5000)))
+		fund = append(fund, fmt.Sprintf("%s/stake:%d", o, g.Range(0, 4)*g.Range(1000, 1000000)+g.Range(0, 20000)))
 	}
 	for _, c := range consPool {
 		switch g.Pick(3, 3, 1) {
@@ -158,6 +158,11 @@ func (r *R) genPricing(g *hx.Rng, now int64) string {
 	case 3:
 		denom = pick(g, []string{"dzz", "st", "1bad"})
 	}
+	if denom != "stake" && g.Chance(5, 6) {
+		if _, ok := r.rates[denom]; !ok || r.env.Service.RestrictedServiceFeeDenom(r.lastCtx) {
+			denom = "stake"
+		}
+	}
 	var amt string
 	switch g.Pick(8, 1, 1) {
 	case 0:
@@ -237,7 +242,7 @@ func (r *R) depositFor(ctx sdk.Context, g *hx.Rng, pricing string, already sdkma
 	if !need.IsPositive() {
 		need = sdkmath.NewInt(g.Range(1, 50))
 	}
-	switch g.Pick(5, 2, 2, 1) {
+	switch g.Pick(6, 3, 1, 1) {
 	case 1:
 		need = need.AddRaw(g.Range(1, 300))
 	case 2:
@@ -251,6 +256,7 @@ func (r *R) depositFor(ctx sdk.Context, g *hx.Rng, pricing string, already sdkma
 }
 
 func (r *R) Gen(ctx sdk.Context, g *hx.Rng) string {
+	r.lastCtx = ctx
 	defs, binds, ctxs, act, resps := r.snapshot(ctx)
 	for _, a := range act {
 		if len(r.G.seenReq) < 200 {
@@ -289,17 +295,21 @@ func (r *R) Gen(ctx sdk.Context, g *hx.Rng) string {
 		}
 		return b.owner
 	}
-	w := []int{1, 6, 3, 1, 2, 2, 2, 10, 4, 14, 5, 5, 2, 3, 1, 14, 5}
+	w := []int{1, 6, 3, 1, 2, 2, 2, 8, 3, 24, 6, 5, 2, 3, 1, 10, 3}
 	if len(defs) == 0 {
 		w[0] = 30
+		w[1], w[7], w[8] = 2, 2, 1
 	} else if len(defs) < 2 {
 		w[0] = 6
 	}
 	if len(binds) < 3 {
 		w[1] = 25
+	} else if len(binds) >= 5 {
+		w[1] = 2
 	}
 	if len(act) == 0 {
-		w[9] = 2
+		w[9] = 1
+		w[7], w[8] = 12, 5
 	}
 	if len(ctxs) == 0 {
 		w[11], w[12], w[13] = 1, 1, 1
@@ -308,6 +318,18 @@ func (r *R) Gen(ctx sdk.Context, g *hx.Rng) string {
 	switch kind {
 	case 0:
 		name := pick(g, svcPool)
+		for i := 0; i < 4; i++ {
+			dup := false
+			for _, d := range defs {
+				if d == name {
+					dup = true
+				}
+			}
+			if !dup || g.Chance(1, 6) {
+				break
+			}
+			name = pick(g, []string{"s1", "s2", "s3"})
+		}
 		if g.Chance(1, 10) {
 			name = pick(g, []string{"1bad", "-", "s_3-x", "s3"})
 		}
@@ -388,7 +410,7 @@ func (r *R) Gen(ctx sdk.Context, g *hx.Rng) string {
 		return "service set_withdraw " + hx.KV("owner", pick(g, ownerPool), "addr", addr)
 	case 4:
 		b, ok := pickBind()
-		for i := 0; i < 4 && ok && b.avail; i++ {
+		for i := 0; i < 12 && ok && b.avail; i++ {
 			b, _ = pickBind()
 		}
 		dep := "-"
@@ -411,12 +433,18 @@ func (r *R) Gen(ctx sdk.Context, g *hx.Rng) string {
 		}
 		return "service enable " + hx.KV("owner", owner(b), "provider", b.prov, "svc", b.svc, "dep", dep)
 	case 5:
-		b, _ := pickBind()
+		b, ok := pickBind()
+		for i := 0; i < 6 && ok && !b.avail; i++ {
+			b, _ = pickBind()
+		}
 		return "service disable " + hx.KV("owner", owner(b), "provider", b.prov, "svc", b.svc)
 	case 6:
 		b, ok := pickBind()
-		for i := 0; i < 4 && ok && b.avail; i++ {
+		for i := 0; i < 12 && ok && (b.avail || b.dep.IsZero()); i++ {
 			b, _ = pickBind()
+		}
+		if ok && b.avail && g.Chance(3, 4) {
+			return "service disable " + hx.KV("owner", owner(b), "provider", b.prov, "svc", b.svc)
 		}
 		return "service refund_deposit " + hx.KV("owner", owner(b), "provider", b.prov, "svc", b.svc)
 	case 7, 8:
@@ -432,7 +460,16 @@ func (r *R) Gen(ctx sdk.Context, g *hx.Rng) string {
 			}
 		}
 		if len(ps) == 0 || g.Chance(1, 10) {
-			ps = append(ps, pick(g, provPool))
+			x := pick(g, provPool)
+			dup := false
+			for _, y := range ps {
+				if x == y {
+					dup = true
+				}
+			}
+			if !dup {
+				ps = append(ps, x)
+			}
 		}
 		if g.Chance(1, 30) {
 			ps = append(ps, ps[0])
@@ -444,7 +481,7 @@ func (r *R) Gen(ctx sdk.Context, g *hx.Rng) string {
 			sort.Sort(sort.Reverse(sort.StringSlice(ps)))
 		}
 		cap := fmt.Sprintf("%d:stake", g.Range(1, 120))
-		switch g.Pick(12, 2, 1, 1) {
+		switch g.Pick(12, 3, 1, 2) {
 		case 1:
 			cap = g.Amount(95).String() + ":stake"
 		case 2:
@@ -459,8 +496,12 @@ func (r *R) Gen(ctx sdk.Context, g *hx.Rng) string {
 				}
 			}
 		}
-		timeout := g.Range(1, 6)
-		if g.Chance(1, 15) {
+		maxto := r.env.Service.MaxRequestTimeout(ctx)
+		timeout := g.Range(1, 8)
+		if timeout > maxto {
+			timeout = g.Range(1, maxto)
+		}
+		if g.Chance(1, 25) {
 			timeout = g.Range(-1, 35)
 		}
 		rep, freq, total := 0, int64(0), int64(0)
@@ -520,7 +561,7 @@ func (r *R) Gen(ctx sdk.Context, g *hx.Rng) string {
 	case 9:
 		var q gReq
 		switch {
-		case len(act) > 0 && g.Chance(9, 10):
+		case len(act) > 0 && g.Chance(14, 15):
 			q = act[g.Intn(len(act))]
 		case len(resps) > 0 && g.Chance(1, 2):
 			q = gReq{id: resps[g.Intn(len(resps))], prov: pick(g, provPool)}
@@ -537,7 +578,7 @@ func (r *R) Gen(ctx sdk.Context, g *hx.Rng) string {
 			prov = acc()
 		}
 		code, out, res := 200, "good", 1
-		switch g.Pick(10, 3, 1, 1, 1, 1) {
+		switch g.Pick(30, 6, 1, 1, 1, 1) {
 		case 1:
 			code, out = pick2(g, 400, 500), "none"
 		case 2:
@@ -560,10 +601,12 @@ func (r *R) Gen(ctx sdk.Context, g *hx.Rng) string {
 			own = acc()
 		}
 		prov := pick(g, provPool)
-		for _, b := range binds {
-			if b.owner == own && g.Chance(1, 2) {
-				prov = b.prov
-			}
+		if len(binds) > 0 && g.Chance(9, 10) {
+			b := binds[g.Intn(len(binds))]
+			own, prov = b.owner, b.prov
+		}
+		if g.Chance(1, 12) {
+			own = acc()
 		}
 		if g.Chance(1, 6) {
 			// keeper-level withdrawal of everything the owner earned: only when the owner-side tally is intact
@@ -574,14 +617,24 @@ func (r *R) Gen(ctx sdk.Context, g *hx.Rng) string {
 		}
 		return "service withdraw " + hx.KV("owner", own, "provider", prov)
 	case 11:
-		c, consumer := r.pickCtx(g, ctxs)
-		if g.Chance(1, 6) {
+		c, consumer := r.pickCtxWhere(g, ctxs, false)
+		if g.Chance(1, 8) {
 			consumer = acc()
 		}
-		return "service " + pick(g, []string{"pause", "pause", "start", "start", "kill"}) + " " + hx.KV("consumer", consumer, "ctx", c)
+		op := pick(g, []string{"pause", "pause", "start", "start", "kill"})
+		for _, x := range ctxs {
+			if x.id == c && g.Chance(5, 6) {
+				if x.c.State == types.PAUSED {
+					op = "start"
+				} else if x.c.State == types.RUNNING && x.c.Repeated {
+					op = pick(g, []string{"pause", "pause", "pause", "kill"})
+				}
+			}
+		}
+		return "service " + op + " " + hx.KV("consumer", consumer, "ctx", c)
 	case 12:
-		c, consumer := r.pickCtx(g, ctxs)
-		if g.Chance(1, 6) {
+		c, consumer := r.pickCtxWhere(g, ctxs, false)
+		if g.Chance(1, 8) {
 			consumer = acc()
 		}
 		ps := "-"
@@ -604,17 +657,27 @@ func (r *R) Gen(ctx sdk.Context, g *hx.Rng) string {
 		}
 		return "service update_ctx " + hx.KV("consumer", consumer, "ctx", c, "providers", ps, "cap", cap, "timeout", timeout, "freq", freq, "total", total)
 	case 13:
-		c, consumer := r.pickCtx(g, ctxs)
+		c, consumer := r.pickCtxWhere(g, ctxs, true)
 		if len(c) != 80 {
 			c = strings.Repeat("0", 80)
 		}
-		if g.Chance(1, 6) {
+		if g.Chance(1, 8) {
 			consumer = acc()
 		}
 		if g.Chance(1, 4) {
 			return "service mupdate " + hx.KV("consumer", consumer, "ctx", c, "providers", "-", "thr", g.Range(0, 3), "cap", "-", "timeout", g.Range(0, 5), "freq", g.Range(0, 9), "total", g.Range(-1, 5))
 		}
-		return "service " + pick(g, []string{"mpause", "mstart", "mstart", "mkill"}) + " " + hx.KV("consumer", consumer, "ctx", c)
+		op := pick(g, []string{"mpause", "mstart", "mstart", "mkill"})
+		for _, x := range ctxs {
+			if x.id == c && g.Chance(5, 6) {
+				if x.c.State == types.PAUSED {
+					op = "mstart"
+				} else if x.c.State == types.RUNNING && x.c.Repeated {
+					op = pick(g, []string{"mpause", "mpause", "mpause", "mkill"})
+				}
+			}
+		}
+		return "service " + op + " " + hx.KV("consumer", consumer, "ctx", c)
 	case 14:
 		d := pick(g, []string{"dbb", "dcc"})
 		rate := pick(g, []string{"-", "2.0", "0.5", "1", "0", "4.25"})
@@ -631,6 +694,28 @@ func pick2(g *hx.Rng, a, b int) int {
 		return a
 	}
 	return b
+}
+
+// pickCtxWhere prefers contexts owned by a module (or not), interesting ones (repeated / paused) first
+func (r *R) pickCtxWhere(g *hx.Rng, ctxs []gCtx, module bool) (string, string) {
+	var sel, hot []gCtx
+	for _, c := range ctxs {
+		if (len(c.c.ModuleName) > 0) == module {
+			sel = append(sel, c)
+			if c.c.Repeated || c.c.State == types.PAUSED {
+				hot = append(hot, c)
+			}
+		}
+	}
+	if len(hot) > 0 && g.Chance(4, 5) {
+		c := hot[g.Intn(len(hot))]
+		return c.id, c.consumer
+	}
+	if len(sel) > 0 && g.Chance(7, 8) {
+		c := sel[g.Intn(len(sel))]
+		return c.id, c.consumer
+	}
+	return r.pickCtx(g, ctxs)
 }
 
 func (r *R) pickCtx(g *hx.Rng, ctxs []gCtx) (string, string) {
